@@ -230,6 +230,12 @@ pub struct UdpPeer {
     /// SOCKS5-UDP relay behaviour (fake upstream): strip the header, forward, wrap replies
     #[serde(default)]
     pub socks_relay: bool,
+    /// a talkative origin: after the first datagram it receives, it sends `late_hex` to that peer again at each of these
+    /// delays (ms), whether or not anybody is still listening
+    #[serde(default)]
+    pub late_ms: Vec<u64>,
+    #[serde(default)]
+    pub late_hex: Option<String>,
 }
 
 #[derive(Deserialize, Clone, Debug)]
@@ -1009,13 +1015,27 @@ async fn run_udp(_idx: usize, u: UdpPeer, sh: Arc<Shared>) {
         let echo = u.echo;
         let prefix = u.echo_prefix_hex.as_ref().map(|h| unhex(h)).unwrap_or_default();
         let relay = u.socks_relay;
+        let late = u.late_ms.clone();
+        let late_data = u.late_hex.as_ref().map(|h| unhex(h)).unwrap_or_else(|| b"<LATE>".to_vec());
         tokio::spawn(async move {
             // socks relay state: the client (proxy) address seen first
             let mut relay_client: Option<SocketAddr> = None;
+            let mut late_started = false;
             loop {
                 match sock.recv_dgram().await {
                     Ok((data, from, _to)) => {
                         sh.record(dgram_record(&id, "recv", &from, &data));
+                        if !late.is_empty() && !late_started {
+                            late_started = true;
+                            let (sock, late, late_data) = (sock.clone(), late.clone(), late_data.clone());
+                            tokio::spawn(async move {
+                                let t0 = tokio::time::Instant::now();
+                                for d in late {
+                                    tokio::time::sleep_until(t0 + std::time::Duration::from_millis(d)).await;
+                                    let _ = sock.try_send_to(&late_data, from);
+                                }
+                            });
+                        }
                         if echo {
                             let mut out = prefix.clone();
                             out.extend_from_slice(&data);
